@@ -1,32 +1,81 @@
 (* Properties/C13.v — Account state behaves like the reference account model.
    Models: State/Ref.v (reference: whole-state copies) and State/Journal.v
    (implementation model of core/state: state objects + undo journal).
+   Proofs: State/JournalProofs.v (exact restore) and State/Refine.v (refinement).
 
-   FULL STATEMENT of the property (NOT proved in Coq; checked on every run by the
-   correspondence: Run/C13.v evaluates it on each generated history, and the Go
-   harness checks the real StateDB against an independent Go reference):
-
-     history_refines : ∀ db ops, hist_ok (init_j db) ops →
-        ∀ q, query_j (run_j (init_j db) ops) q = query_r (run_r (init_r db) ops) q
-     (and the return values of every call agree), where hist_ok is [op_ok] at every step.
-
-   What IS proved here, for all states / histories of the implementation model:
-   the part of the property that carries snapshots and reverts — the journal's revert
-   is an exact left inverse (every field, including journal.mutations counts and
-   stashes) of everything any sequence of journalled API calls did, so that
-   Snapshot; calls; RevertToSnapshot is the identity — plus two [_refuted] theorems
-   showing that the two API guards in [op_ok] cannot be dropped from the refinement.
-   [None]/[RPanic]/[j_bad] = the Go code panics. *)
+   The property is the refinement [C13_history_refines]: after every history of API
+   calls that stays inside the guards [op_ok] (API preconditions the EVM establishes),
+   every observable getter of the implementation model equals that of the reference
+   model, every call returned the same value (including which calls panic), and no Go
+   panic happened inside a revert — for all committed start states, all rule sets,
+   snapshots and reverts nested arbitrarily, any number of transactions.
+   PARTIAL in one respect, visible in the statement: [hist_ok] also excludes, through
+   [no_sticky], the RIPEMD-160 zero-value touch (AddBalance(0x03, 0) on an empty or
+   absent account), whose journal.mutations marker deliberately survives reverts; that
+   call is covered by the correspondence check only.  The intermediate state root is
+   not modelled (no trie library yet).
+   [RPanic]/[j_bad] = the Go code panics. *)
 From stdpp Require Import gmap.
 From RecordUpdate Require Import RecordSet.
 Import RecordSetNotations.
-From GV Require Import State.Ref State.Journal State.JournalProofs.
+From GV Require Import State.Ref State.Journal State.JournalProofs State.Refine State.Dirties.
 Local Open Scope N_scope.
 
 (* the state a StateDB starts from is well-formed, whatever the committed pre-state *)
 Theorem C13_wf_init : ∀ db, wf (init_j db).
 Proof. exact wf_init. Qed.
 Print Assumptions C13_wf_init.
+
+(* every getter agrees whenever the coupling invariant holds *)
+Theorem C13_inv_observables : ∀ j r q, Inv j r → query_j j q = query_r r q.
+Proof. exact Inv_query. Qed.
+Print Assumptions C13_inv_observables.
+
+(* step_refines: every call inside its guard — balance, nonce, code, storage, transient
+   storage, access list, refund, log, create, create-contract, self-destruct (plain and
+   EIP-6780), Snapshot, RevertToSnapshot of ANY id (valid at any depth: pops to that copy;
+   invalid: both sides panic), SetTxContext+Prepare, Finalise under any rules — preserves
+   the invariant (well-formedness, coupling of the current states, coupling of every
+   saved copy with the state the journal would revert to) and returns the same value *)
+Theorem C13_step_refines_partial : ∀ j r o,
+  Inv j r → op_ok j o = true → no_sticky j o →
+  (step_j j o).2 = (step_r r o).2 ∧ Inv (step_j j o).1 (step_r r o).1.
+Proof. exact step_refines. Qed.
+Print Assumptions C13_step_refines_partial.
+
+(* history_refines, from the empty and from any committed start state *)
+Theorem C13_history_refines_partial : ∀ db ops,
+  hist_ok (init_j db) ops →
+  (∀ q, query_j (run_j (init_j db) ops) q = query_r (run_r (init_r db) ops) q) ∧
+  outs_j (init_j db) ops = outs_r (init_r db) ops ∧
+  j_bad (run_j (init_j db) ops) = false.
+Proof. exact history_refines. Qed.
+Print Assumptions C13_history_refines_partial.
+
+(* ... and from any pair of related states *)
+Theorem C13_run_refines_partial : ∀ ops j r,
+  Inv j r → hist_ok j ops → Inv (run_j j ops) (run_r r ops) ∧ outs_j j ops = outs_r r ops.
+Proof. exact run_refines. Qed.
+Print Assumptions C13_run_refines_partial.
+
+(* dirties_exact — the invariant Finalise relies on — after EVERY history (no guard, the
+   RIPEMD-160 touch included): an address is a key of journal.mutations iff some live
+   journal entry mentions it, or it is RIPEMD-160 and a marker was added in this
+   transaction (n counts the markers); and each per-kind count equals the number of live
+   entries of that kind for that address (+ n for RIPEMD-160's Touch count) *)
+Theorem C13_dirties_exact : ∀ db ops,
+  ∃ n : Z, (0 ≤ n)%Z ∧ ∀ a,
+    a ∈ dom (j_muts (run_j (init_j db) ops)) ↔
+    (∃ e k, e ∈ j_entries (run_j (init_j db) ops) ∧ mutation e = Some (a, k)) ∨ (a = ripemd ∧ (0 < n)%Z).
+Proof. exact dirties_exact. Qed.
+Print Assumptions C13_dirties_exact.
+
+Theorem C13_counts_exact : ∀ db ops,
+  ∃ n : Z, (0 ≤ n)%Z ∧ ∀ a k,
+    count k (mstate_for a (run_j (init_j db) ops))
+    = (ecount a k (j_entries (run_j (init_j db) ops)) + (if is_mark a k then n else 0))%Z.
+Proof. exact counts_exact. Qed.
+Print Assumptions C13_counts_exact.
 
 (* revert_restores, one call: for every journalled API call (balance, nonce, code,
    storage, transient storage, access list, refund, log, create, create-contract,
@@ -40,19 +89,18 @@ Theorem C13_revert_restores : ∀ j o,
 Proof. exact restore. Qed.
 Print Assumptions C13_revert_restores.
 
-(* ... and for every sequence of such calls *)
-Theorem C13_revert_restores_run : ∀ j ops,
-  run_ok j ops → revert_to (length (j_entries j)) (run_j j ops) = j.
-Proof. exact restore_run. Qed.
+(* ... and for every sequence of such calls, from any state reachable by a guarded
+   history (well-formedness of the intermediate states is a theorem, not a hypothesis) *)
+Theorem C13_revert_restores_run : ∀ j r ops,
+  Inv j r → core_hist j ops → revert_to (length (j_entries j)) (run_j j ops) = j.
+Proof. exact restore_run_inv. Qed.
 Print Assumptions C13_revert_restores_run.
 
-(* API level: Snapshot, any such sequence, RevertToSnapshot of the returned id does not
-   panic and restores the whole StateDB; only nextRevisionId has advanced.
-   PARTIAL with respect to the property's nesting clause: [run_ok] admits journalled
-   calls only, so inner Snapshot/RevertToSnapshot pairs inside the reverted region are
-   covered by composing this theorem from the inside out, not by one statement; and
-   [run_ok] asks for [wf] at every intermediate state (proved for the initial state,
-   checked — not proved — to be preserved by each call). *)
+(* API level, implementation side only: Snapshot, any such sequence, RevertToSnapshot of
+   the returned id does not panic and restores the whole StateDB exactly; only
+   nextRevisionId has advanced.  (Nested snapshots inside the reverted region are covered
+   by [C13_step_refines_partial]; this statement is about journalled calls only, hence
+   the suffix.) *)
 Theorem C13_snapshot_revert_partial : ∀ j ops,
   run_ok (step_j j OSnapshot).1 ops →
   step_j (run_j (step_j j OSnapshot).1 ops) (ORevert (j_nextrev j))
